@@ -309,7 +309,7 @@ pub fn run(ctx: &Ctx, rep: &mut Report) {
         }
     }
     rep.exhaustive = Some(true);
-    let n = ctx.budget(40_000, 1_500_000);
+    let n = ctx.budget(160_000, 3_000_000);
     for case in 0..n {
         let mut rng = ctx.rng("random", case);
         let (files, fault) = random_case(&mut rng);
